@@ -389,6 +389,37 @@ func runCheck(opt *checkOpts) int {
 			}
 		}
 	}
+	// ---- witnesses of repaired defects that no obligation covers ("#witness" entries, status fixed): the recorded input
+	// is replayed on the real code on every run, so that the defect is reported again if it ever returns (a test, not a
+	// proof: listed as such in the evidence) ----
+	regressionEv := []map[string]any{}
+	var witnessFailed []string
+	if opt.only == "" && !opt.noReplay {
+		for i := range kf.Findings {
+			f := &kf.Findings[i]
+			if f.Status != "fixed" || f.Property != opt.property || !strings.HasSuffix(f.Obligation, "#witness") || f.Witness == "" {
+				continue
+			}
+			tw := time.Now()
+			fails, wout := runWitness(opt, f)
+			rec := map[string]any{"obligation": f.Obligation, "witness": f.WitnessRun, "repaired_in": f.Commit, "wall_s": round3(time.Since(tw).Seconds())}
+			if fails {
+				rec["result"] = "the repaired defect is back"
+				witnessFailed = append(witnessFailed, "witness."+f.WitnessRun)
+				violations++
+				path := writeNote(opt, "witness_"+sanitize(f.WitnessRun), "the witness of a repaired defect fails again ("+f.Obligation+", repaired in "+f.Commit+"): "+f.What+"\n"+wout)
+				violLines = append(violLines, fmt.Sprintf("VIOLATION property=%s replay=%s", opt.property, path))
+			} else if strings.HasPrefix(wout, "witness did not run") {
+				rec["result"] = "did not run"
+				violations++
+				path := writeNote(opt, "witness_"+sanitize(f.WitnessRun), "the witness of a repaired defect ("+f.Obligation+") did not run:\n"+wout)
+				violLines = append(violLines, fmt.Sprintf("VIOLATION property=%s replay=%s no-failing-input-found", opt.property, path))
+			} else {
+				rec["result"] = "holds"
+			}
+			regressionEv = append(regressionEv, rec)
+		}
+	}
 	// ---- bounded stand-ins (functions outside the verifier's reach; labelled bounded, never counted as proved) ----
 	boundedEv := []map[string]any{}
 	var boundedFailed []string
@@ -469,7 +500,7 @@ func runCheck(opt *checkOpts) int {
 				fmt.Printf("  FAILED %s (%d/%d) %v at %s\n", cl, a.ok, a.n, a.verdicts, a.pos)
 			}
 		}
-		for _, b := range boundedFailed {
+		for _, b := range append(witnessFailed, boundedFailed...) {
 			fmt.Printf("  FAILED %s (bounded stand-in found a failing case)\n", b)
 		}
 		for _, s := range stale {
@@ -555,6 +586,7 @@ func runCheck(opt *checkOpts) int {
 			"undecided_clauses_of_the_property":     und,
 			"bounded_standins":                      boundedEv,
 			"safety_sweep":                          sweepEv,
+			"regression_witnesses_of_repaired_defects": regressionEv,
 			"preconditions_assumed_at_entry_points": entryPre,
 			"max_query_kB":                          maxQuery / 1024,
 			"explanation":                           "obligations = SMT queries generated from /repo's current source for the functions and lemmas listed (safety, frame, loop invariant entry/preservation, variants, call preconditions, postconditions); discharged = answered unsat. Refuted obligations that are listed known findings are reported separately and are not counted.",
